@@ -5,6 +5,21 @@ HERE = os.path.dirname(os.path.dirname(os.path.abspath(__file__)))
 ALL = ["C%02d" % i for i in range(1, 21)]
 
 CHECKS = {
+ "C01": dict(
+  category="model_checking",
+  text="Docstring.tla: a behaviour picks (style, emit_default_doc, emit_types) and an interface of 0..2 parameters (15 type shapes "
+       "x compatible default kinds x description kinds) plus optional return. Norm(cfg, i) is what the statement demands of the "
+       "re-parsed interface; AsBuilt applies the named deviations listed as open in known_findings.txt. TLC checks RoundTrip on "
+       "the ideal rules and RoundTripOrDeviation on the as-built rules, and every listed deviation must be reachable. Binding: "
+       "every dumped behaviour (all 1-parameter cases + a seeded 4000 (quick) / all ~290k (thorough) 2-parameter cases) is "
+       "concretised and driven through the real emitter and parser; the verdict is real == gamma(Norm); a mismatch is a "
+       "KNOWN-FINDING only if it equals gamma(AsBuilt) for an enabled deviation (or lies in a listed input class).",
+  design_ref="DESIGN.md section 4, C01",
+  note="Trusted: gamma (pools of representatives), the comparison (descriptions up to whitespace and a terminal full stop; with "
+       "emit_types=False the type is exempt unless it contradicts the carried default). Entries without a description are "
+       "outside the modelled domain.",
+  technique="TLA+ spec of the round trip with ideal and as-built rules, TLC exhaustive over the abstract domain, every behaviour "
+            "replayed through the real emitter/parser"),
  "C11": dict(
   category="model_checking",
   text="Loops.tla transcribes the five index-walking while-loops of the docstring emitter and scanners with an explicit variant "
